@@ -701,6 +701,12 @@ func c19WireRequired(cases *verifx.Cases) {
 	s.AddResource(&Resource{URI: "file:///r", Name: "r"}, func(context.Context, *ReadResourceRequest) (*ReadResourceResult, error) {
 		return &ReadResourceResult{Contents: []*ResourceContents{}}, nil
 	})
+	s.AddResource(&Resource{URI: "file:///empty.txt", Name: "e", MIMEType: "text/plain"}, func(context.Context, *ReadResourceRequest) (*ReadResourceResult, error) {
+		return &ReadResourceResult{Contents: []*ResourceContents{{URI: "file:///empty.txt", MIMEType: "text/plain", Text: ""}}}, nil
+	})
+	s.AddTool(&Tool{Name: "embeds-empty-file", InputSchema: map[string]any{"type": "object"}}, func(context.Context, *CallToolRequest) (*CallToolResult, error) {
+		return &CallToolResult{Content: []Content{&EmbeddedResource{Resource: &ResourceContents{URI: "file:///empty.txt", MIMEType: "text/plain"}}}}, nil
+	})
 	empty := NewServer(&Implementation{Name: "empty", Version: "1"}, &ServerOptions{Logger: quietLogger, HasTools: true, HasPrompts: true, HasResources: true})
 	type probe struct {
 		name  string
@@ -726,6 +732,15 @@ func c19WireRequired(cases *verifx.Cases) {
 			_, err := cs.ReadResource(ctx, &ReadResourceParams{URI: "file:///r"})
 			return err
 		}, [][]string{{"contents"}}},
+		// a text resource that is empty (an empty file): "text" is what makes it a text resource
+		{"resources/read empty text resource", s, func(cs *ClientSession) error {
+			_, err := cs.ReadResource(ctx, &ReadResourceParams{URI: "file:///empty.txt"})
+			return err
+		}, [][]string{{"contents", "0", "text"}}},
+		{"tools/call embedded empty text resource", s, func(cs *ClientSession) error {
+			_, err := cs.CallTool(ctx, &CallToolParams{Name: "embeds-empty-file"})
+			return err
+		}, [][]string{{"content", "0", "resource", "text"}}},
 		{"completion/complete nil values", s, func(cs *ClientSession) error {
 			_, err := cs.Complete(ctx, &CompleteParams{Ref: &CompleteReference{Type: "ref/prompt", Name: "p"}, Argument: CompleteParamsArgument{Name: "a", Value: "v"}})
 			return err
